@@ -480,7 +480,8 @@ class _Gen:
         cands = [f for f in ctx["switchable"] if f not in ctx["switched"]]
         if not cands:
             return self.i_field(ctx, body)
-        fname = self.pick(cands)
+        hard = [f for f in cands if ctx["fields"][f].get("value") is not None]
+        fname = self.pick(hard) if hard and self.boolean(0.6) else self.pick(cands)
         ctx["switched"].add(fname)
         fins = ctx["fields"][fname]
         r = self.an.resolve(fins["type"])
@@ -503,7 +504,10 @@ class _Gen:
                             o += 1
                         val = str(o)
                 else:
-                    val = str(self.draw(st.one_of(st.integers(0, 6), st.integers(0, 300))))
+                    if ci == 0 and fins.get("value") is not None and self.boolean(0.7):
+                        val = str(int(fins["value"]))     # the hardcoded constant selects this case
+                    else:
+                        val = str(self.draw(st.one_of(st.integers(0, 6), st.integers(0, 300))))
                     while val in used:
                         val = str(int(val) + 1)
                 used.add(val)
